@@ -67,7 +67,38 @@ def known_shapes():
     shapes["expiration-after-live-restore"] = [
         A(1, pre[0]), A(2, cfg(0, 90)), A(3, line(30, 3)), H("SnapshotTake", now=95), H("PersistOK"),
         A(4, cfg(30, 1)), H("Restore"), H("SnapshotTake", now=95), H("PersistOK"), H("Restart")]
+    # CreateSession refused at MaxSessions inside the folded range: two snapshots on the same
+    # irclog (the second starts from the state the first filed), then live restore and restart
+    lim = lambda ts, n: F._e("cmd", "config", ts, 0, 0, 0, n)
+    create = lambda ts: F._e("cmd", "create", ts, 0, 0, 0)
+    shapes["refused-create-folded-then-second-snapshot"] = [
+        A(1, pre[0]), A(2, lim(0, 1)), A(3, create(0)), A(4, line(4, 4)), H("SnapshotTake", now=64), H("PersistOK"),
+        A(5, create(4)), A(6, line(4, 6)), H("SnapshotTake", now=70), H("PersistOK"), H("Restore"), H("Restart")]
+    shapes["refused-create-at-the-cut"] = [
+        A(1, pre[0]), A(2, lim(0, 1)), A(3, line(0, 3)), A(4, create(4)), A(5, line(4, 5)), H("SnapshotTake", now=64),
+        H("PersistOK"), H("SnapshotTake", now=70), H("PersistOK"), H("Restart"), A(6, create(4)), H("Restore")]
+    shapes["refused-create-last-folded"] = [
+        A(1, pre[0]), A(2, lim(0, 1)), A(3, create(0)), H("SnapshotTake", now=64), H("PersistFail"),
+        A(4, line(4, 4)), H("SnapshotTake", now=64), H("PersistOK"), A(5, create(0)), H("SnapshotTake", now=70), H("PersistOK"),
+        H("Restart")]
+    shapes["limit-raised-after-refusal"] = [
+        A(1, pre[0]), A(2, lim(0, 1)), A(3, create(0)), A(4, lim(0, 2)), A(5, create(0)), A(6, F._e("cmd", "line", 4, 5, 6, 0)),
+        H("SnapshotTake", now=64), H("PersistOK"), H("SnapshotTake", now=70), H("PersistOK"), H("Restore"), H("Restart")]
     return shapes
+
+
+def has_refused_create(b, prelude):
+    """Does the behaviour's log contain a CreateSession that the state machine refuses?"""
+    st = F.Abs()
+    log = list(prelude)
+    for h in b:
+        if h["a"] == "Apply" and h["i"] > len(log):
+            log.append(h["e"])
+    for i, e in enumerate(log, 1):
+        if e["cls"] == "create" and st.maxs > 0 and len(st.sess) >= st.maxs:
+            return True
+        st.apply(i, e)
+    return False
 
 
 def replay_file(ctx, eng, path):
@@ -240,6 +271,18 @@ def _run(ctx):
     ctx.cov["edges_expiration"] = nedges
     eng.replay_behaviours(behs, "PreludeSess", "expedge", limit=500 if quick else None, nproc=4 if quick else 6)
 
+    # 4b. entries the state machine refuses (CreateSession at MaxSessions) inside the folded range
+    behs, nedges = eng.edges("FSM_limedges.cfg")
+    ctx.cov["edges_limit"] = nedges
+    if quick:
+        rng0 = random.Random(ctx.seed + 17)
+        refused = [b for b in behs if has_refused_create(b, F.PRELUDES["PreludeSess"])]
+        others = [b for b in behs if not has_refused_create(b, F.PRELUDES["PreludeSess"])]
+        behs = rng0.sample(refused, min(len(refused), 450)) + rng0.sample(others, min(len(others), 100))
+    eng.replay_behaviours(behs, "PreludeSess", "limedge", nproc=4 if quick else 6)
+    if not quick:
+        eng.background("exhaustive-lim", lambda: eng.exhaustive("FSM_lim.cfg", workers=4))
+
     # 5. TLC's counterexamples for the pinned behaviour and the simulated behaviours
     behs = list(f_cex.result().values())
     eng.replay_behaviours(behs + behs, "PreludeSess", "asis", proto_of=lambda k: k < len(behs))
@@ -248,7 +291,10 @@ def _run(ctx):
 
     # 6. seeded random schedules over longer realistic logs (differential oracle only)
     rng = random.Random(ctx.seed)
-    rs = [F.gen_random(rng, "rand-%d" % k) for k in range(150 if quick else 4000)]
+    nr = 150 if quick else 4000
+    rs = [F.gen_random(rng, "rand-%d" % k) for k in range(nr)]
+    # ... and logs with half-registered sessions folded into a snapshot and used again afterwards
+    rs += [F.gen_halfreg(rng, "half-%d" % k) for k in range(nr // 3)]
     t = time.time()
     evr = eng.run(rs, nproc=4 if quick else 6)
     steps, nviol = F.judge_all(ctx, rs, evr)
